@@ -112,6 +112,8 @@ def jobs(tier):
     out = [make_job(m, n, o) for (m, n, o) in CONFIGS]
     out.append(Job('logqp', job_logqp))
     out.append(Job('noise-shape', C04.job_noise_shape))
+    from props import C18
+    out.append(Job('stable_division', C18.job_stable_division))      # element-wise: no row of the log-ratio drift depends on another row
     from props import agg_jobs as AJ
     out.append(AJ.job_aggregation('C20'))       # the Levy-area cross terms of a multi-node query are formed per batch element
     return out
